@@ -10,6 +10,14 @@ NOT_BUILT = "rules designed (DESIGN.md sections 3-4) but not built yet; not clai
 
 # property -> (technique, level text, level note, design ref)
 CLAIMED = {
+ "C09": ("typestate/lockset dataflow on the SSA CFG (must-held mutexes), after-hand-off effect analysis, who-may-write tables for thread status, call-graph reachability to Lua execution under a held mutex, def-use checks of the termination forwarding chain",
+         "Structural preconditions of the coroutine protocol: nothing touches shared state after a hand-off; thread state is written under its mutex and each status by its owner; lock order receiver-then-caller; no Lua under a thread mutex; one go statement whose goroutine always ends through t.end; terminations are forwarded to the resumer. Each is necessary: breaking one is a race, a deadlock, a leaked goroutine or a swallowed kill.",
+         "Trusted: go/ssa CFG, VTA reachability. Not decided: value transfer, full status table, deadlock/race freedom under all schedules.",
+         "DESIGN.md 3 (R-HANDOFF/LOCKSET/GO), 4 (C09)"),
+ "C18": ("dominance/ordering checks and def-use on SSA for the finalise/release call pairs, must-edge guard checks in the finaliser pool, lockset dataflow on the pool's mutex",
+         "Structural necessary conditions of 'exactly once, finalisers before releases, releases even when killed': ordering of the two extractions at the three sites, releases unconditional and actually passed to releaseResources, CallContext finalises before popping, pool entries handed out only once (flag test + mark), pool lists only under the mutex.",
+         "Trusted: go/ssa. Not decided: histories involving Go's collector, reverse-order values, reachability of finalised values.",
+         "DESIGN.md 3 (R-LOCKSET), 4 (C18)"),
  "C06": ("SSA backward slicing of allocation sizes to their leaves with dominating-charge and must-edge guard checks; path-sensitive value-numbered release/acquire balance with deferred calls replayed; constructor/destructor pairing by size, count field and guarding flags; who-may-call rule",
          "Structural necessary conditions: computed-size allocations and fresh program-sized strings are charged first or bounded by held memory; no path releases an amount more often than it acquired it; destructors mirror constructors; table growth is charged. Each violation lets a program hold uncharged memory or crash/underflow the counter.",
          "Trusted: go/ssa, dominators, tables confirmed by reading. Not decided: monotonicity in M, the heap-to-M constant, hidden stdlib allocations, over-accounting.",
